@@ -20,15 +20,34 @@ unsafe impl Send for SendWorld {}
 pub const MAX_WORLDS: usize = 8;
 pub const MAX_WORKERS: usize = 4;
 
+/// (global index, thread, event) of every operation, in execution order, nested ones flattened.
+/// Nested operations that name the world of their outer operation are dropped (that world is busy).
+fn flatten(case: &Case) -> Vec<(usize, usize, usize, &Ev)> {
+    let mut out = vec![];
+    for (i, e) in case.events.iter().enumerate() {
+        match e {
+            Ev::On { w, t, inner } if *w < MAX_WORLDS => out.push((i, *w, *t % MAX_WORKERS, &**inner)),
+            Ev::OnNested { w, t, inner, nested, .. } if *w < MAX_WORLDS => {
+                out.push((i, *w, *t % MAX_WORKERS, &**inner));
+                for n in nested {
+                    if let Ev::On { w: w2, t: t2, inner: i2 } = n {
+                        if *w2 < MAX_WORLDS && w2 != w {
+                            out.push((i, *w2, *t2 % MAX_WORKERS, &**i2));
+                        }
+                    }
+                }
+            }
+            _ => {}
+        }
+    }
+    out
+}
+
 fn split(case: &Case) -> Vec<Vec<(usize, usize, &Ev)>> {
     // per world: (global index, thread, event)
     let mut per: Vec<Vec<(usize, usize, &Ev)>> = (0..MAX_WORLDS).map(|_| vec![]).collect();
-    for (i, e) in case.events.iter().enumerate() {
-        if let Ev::On { w, t, inner } = e {
-            if *w < MAX_WORLDS {
-                per[*w].push((i, *t % MAX_WORKERS, inner));
-            }
-        }
+    for (i, w, t, e) in flatten(case) {
+        per[w].push((i, t, e));
     }
     per
 }
@@ -37,6 +56,139 @@ fn split(case: &Case) -> Vec<Vec<(usize, usize, &Ev)>> {
 /// bug is reported either as a broken prediction or as a transcript divergence.
 fn new_world() -> World {
     World::new(P::C18)
+}
+
+enum ToW {
+    Job(SendWorld, Ev, usize),
+    Resume,
+    Quit,
+}
+enum FromW {
+    /// the running operation is suspended inside a library call, at this seam
+    Yield(&'static str),
+    Done(SendWorld, Result<(), Violation>, Cov),
+}
+
+fn run_job(mut sw: SendWorld, ev: Ev, gi: usize, back: &mpsc::SyncSender<FromW>) -> bool {
+    let mut c = Cov::new();
+    sw.0.ev_idx = gi;
+    let r = sw.0.apply(&ev, &mut c);
+    back.send(FromW::Done(sw, r, c)).is_ok()
+}
+
+struct Sched<'a> {
+    to_worker: Vec<mpsc::SyncSender<ToW>>,
+    back_rx: mpsc::Receiver<FromW>,
+    worlds: Vec<Option<SendWorld>>,
+    done: Vec<usize>,
+    last_thread: Vec<Option<usize>>,
+    seq_tx: &'a [Vec<u64>],
+    others: usize,
+}
+
+impl<'a> Sched<'a> {
+    /// Run one operation of world `w` on worker `t`. While it is suspended at its `at`-th seam call the
+    /// `nested` operations run (depth one: their own seam calls are resumed at once).
+    fn dispatch(&mut self, gi: usize, w: usize, t: usize, inner: &Ev, nest: Option<(u32, &[Ev])>, busy: Option<(usize, usize)>, cov: &mut Cov) -> Option<Violation> {
+        let sw = match self.worlds[w].take() {
+            Some(sw) => sw,
+            None => return None, // world suspended inside the outer operation
+        };
+        let reentrant = busy.map(|(_, bt)| bt == t).unwrap_or(false);
+        self.to_worker[t].send(ToW::Job(sw, inner.clone(), gi)).expect("worker alive");
+        let mut pending = nest;
+        let mut yields = 0u32;
+        let (sw, r, c) = loop {
+            match self.back_rx.recv().expect("worker alive") {
+                FromW::Yield(site) => {
+                    if let Some((at, list)) = pending {
+                        if yields == at {
+                            pending = None;
+                            cov.hit(&format!("fault.preempted_inside_call.{}", site));
+                            for n in list {
+                                if let Ev::On { w: w2, t: t2, inner: i2 } = n {
+                                    if *w2 < MAX_WORLDS && *w2 != w {
+                                        let t2 = *t2 % MAX_WORKERS;
+                                        if t2 == t {
+                                            cov.hit("fault.reentered_on_same_thread");
+                                        }
+                                        if let Some(v) = self.dispatch(gi, *w2, t2, i2, None, Some((w, t)), cov) {
+                                            // the suspended operation is abandoned: release its worker
+                                            let _ = self.to_worker[t].send(ToW::Resume);
+                                            loop {
+                                                match self.back_rx.recv() {
+                                                    Ok(FromW::Yield(_)) => {
+                                                        let _ = self.to_worker[t].send(ToW::Resume);
+                                                    }
+                                                    _ => break,
+                                                }
+                                            }
+                                            return Some(v);
+                                        }
+                                    }
+                                }
+                            }
+                        }
+                    }
+                    yields += 1;
+                    self.to_worker[t].send(ToW::Resume).expect("worker alive");
+                }
+                FromW::Done(sw, r, c) => break (sw, r, c),
+            }
+        };
+        let _ = reentrant;
+        cov.merge(&c);
+        cov.events += 1;
+        cov.hit(&format!("c18.placed_on_worker.{}", t));
+        if let Some(lt) = self.last_thread[w] {
+            if lt != t {
+                cov.hit("fault.context_migrated_between_threads");
+            }
+        }
+        self.last_thread[w] = Some(t);
+        cov.sig_event("On", &format!("{}@{}{}{}", w, t, inner.kind(), if busy.is_some() { "^" } else { "" }));
+        let tx_now = sw.0.tx.0;
+        self.worlds[w] = Some(sw);
+        if let Err(v) = r {
+            let mut v = v;
+            v.invariant = format!("interleaved.{}", v.invariant);
+            return Some(v);
+        }
+        let want = self.seq_tx[w].get(self.done[w]).copied().unwrap_or(0);
+        self.done[w] += 1;
+        if tx_now != want {
+            return Some(Violation {
+                property: "C18".into(),
+                invariant: "c18.transcript-diverges".into(),
+                at_event: gi,
+                expected: format!("world {} after its event #{} ({}) has transcript hash {:016x}, as when executed alone on one thread", w, self.done[w], inner.kind(), want),
+                observed: format!(
+                    "{:016x} when interleaved with {} other worlds, this operation on worker {}{}",
+                    tx_now,
+                    self.others,
+                    t,
+                    match busy {
+                        Some((bw, bt)) if bt == t => format!(", re-entrantly while an operation of world {} was suspended inside a library call on the same thread", bw),
+                        Some((bw, bt)) => format!(", while an operation of world {} was suspended inside a library call on worker {}", bw, bt),
+                        None => String::new(),
+                    }
+                ),
+            });
+        }
+        // nested operations whose seam never came run right after the operation
+        if let Some((_, list)) = pending {
+            for n in list {
+                if let Ev::On { w: w2, t: t2, inner: i2 } = n {
+                    if *w2 < MAX_WORLDS && *w2 != w {
+                        if let Some(v) = self.dispatch(gi, *w2, *t2 % MAX_WORKERS, i2, None, None, cov) {
+                            return Some(v);
+                        }
+                    }
+                }
+            }
+        }
+        None
+    }
 }
 
 pub fn execute_c18(case: &Case, cov: &mut Cov) -> Option<Violation> {
@@ -65,74 +217,73 @@ pub fn execute_c18(case: &Case, cov: &mut Cov) -> Option<Violation> {
         }
         cov.aux = f.0;
     }
-    // 2. interleaved, with every operation placed on a worker thread
-    let mut to_worker: Vec<mpsc::SyncSender<Option<(SendWorld, Ev, usize)>>> = vec![];
-    let (back_tx, back_rx) = mpsc::sync_channel::<(SendWorld, Result<(), Violation>, Cov)>(0);
+    // 2. interleaved, with every operation placed on a worker thread; the seams at which the library
+    //    calls out (RNG, shimmed AEAD) are preemption points inside an operation
+    let mut to_worker: Vec<mpsc::SyncSender<ToW>> = vec![];
+    let (back_tx, back_rx) = mpsc::sync_channel::<FromW>(0);
     let mut handles = vec![];
     for _ in 0..MAX_WORKERS {
-        let (tx, rx) = mpsc::sync_channel::<Option<(SendWorld, Ev, usize)>>(0);
+        let (tx, rx) = mpsc::sync_channel::<ToW>(0);
         let back = back_tx.clone();
         to_worker.push(tx);
         handles.push(std::thread::spawn(move || {
-            while let Ok(Some((mut sw, ev, gi))) = rx.recv() {
-                let mut c = Cov::new();
-                sw.0.ev_idx = gi;
-                let r = sw.0.apply(&ev, &mut c);
-                if back.send((sw, r, c)).is_err() {
-                    break;
+            let rx = std::rc::Rc::new(rx);
+            let (rx2, back2) = (rx.clone(), back.clone());
+            crate::shim::set_yield_hook(Some(Box::new(move |site| {
+                if back2.send(FromW::Yield(site)).is_err() {
+                    return;
+                }
+                loop {
+                    match rx2.recv() {
+                        Ok(ToW::Job(sw, ev, gi)) => {
+                            if !run_job(sw, ev, gi, &back2) {
+                                return;
+                            }
+                        }
+                        _ => return,
+                    }
+                }
+            })));
+            loop {
+                match rx.recv() {
+                    Ok(ToW::Job(sw, ev, gi)) => {
+                        if !run_job(sw, ev, gi, &back) {
+                            break;
+                        }
+                    }
+                    Ok(ToW::Resume) => {}
+                    _ => break,
                 }
             }
+            crate::shim::set_yield_hook(None);
         }));
     }
-    let mut worlds: Vec<Option<SendWorld>> = (0..MAX_WORLDS).map(|_| Some(SendWorld(new_world()))).collect();
-    let mut done: Vec<usize> = vec![0; MAX_WORLDS];
-    let mut last_thread: Vec<Option<usize>> = vec![None; MAX_WORLDS];
+    let mut s = Sched {
+        to_worker,
+        back_rx,
+        worlds: (0..MAX_WORLDS).map(|_| Some(SendWorld(new_world()))).collect(),
+        done: vec![0; MAX_WORLDS],
+        last_thread: vec![None; MAX_WORLDS],
+        seq_tx: &seq_tx,
+        others: per.iter().filter(|p| !p.is_empty()).count().saturating_sub(1),
+    };
     let mut result = None;
     for (gi, e) in case.events.iter().enumerate() {
-        if let Ev::On { w, t, inner } = e {
-            if *w >= MAX_WORLDS {
-                continue;
-            }
-            let t = *t % MAX_WORKERS;
-            let sw = worlds[*w].take().unwrap();
-            to_worker[t].send(Some((sw, (**inner).clone(), gi))).expect("worker alive");
-            let (sw, r, c) = back_rx.recv().expect("worker alive");
-            cov.merge(&c);
-            cov.events += 1;
-            cov.hit(&format!("c18.placed_on_worker.{}", t));
-            if let Some(lt) = last_thread[*w] {
-                if lt != t {
-                    cov.hit("fault.context_migrated_between_threads");
-                }
-            }
-            last_thread[*w] = Some(t);
-            cov.sig_event("On", &format!("{}@{}{}", w, t, inner.kind()));
-            let tx_now = sw.0.tx.0;
-            worlds[*w] = Some(sw);
-            if let Err(v) = r {
-                let mut v = v;
-                v.invariant = format!("interleaved.{}", v.invariant);
-                result = Some(v);
-                break;
-            }
-            let want = seq_tx[*w][done[*w]];
-            done[*w] += 1;
-            if tx_now != want {
-                result = Some(Violation {
-                    property: "C18".into(),
-                    invariant: "c18.transcript-diverges".into(),
-                    at_event: gi,
-                    expected: format!("world {} after its event #{} ({}) has transcript hash {:016x}, as when executed alone on one thread", w, done[*w], inner.kind(), want),
-                    observed: format!("{:016x} when interleaved with {} other worlds, this operation on worker {}", tx_now, per.iter().filter(|p| !p.is_empty()).count().saturating_sub(1), t),
-                });
-                break;
-            }
+        let r = match e {
+            Ev::On { w, t, inner } if *w < MAX_WORLDS => s.dispatch(gi, *w, *t % MAX_WORKERS, inner, None, None, cov),
+            Ev::OnNested { w, t, inner, at, nested } if *w < MAX_WORLDS => s.dispatch(gi, *w, *t % MAX_WORKERS, inner, Some((*at, nested)), None, cov),
+            _ => None,
+        };
+        if r.is_some() {
+            result = r;
+            break;
         }
     }
-    for tx in to_worker.iter() {
-        let _ = tx.send(None);
+    for tx in s.to_worker.iter() {
+        let _ = tx.send(ToW::Quit);
     }
     drop(back_tx);
+    drop(s);
     for h in handles {
         let _ = h.join();
     }
@@ -196,6 +347,28 @@ pub fn gen_c18(rng: &mut Prng, run: u64, t: &Tier) -> Vec<Ev> {
         }
         let ev = lists[cur][idx[cur]].clone();
         idx[cur] += 1;
+        // preemption inside the call: operations that draw from the caller's RNG (or call a shimmed
+        // AEAD) may be suspended at that seam while operations of other worlds run
+        let seamy = matches!(ev, Ev::SetupS { .. } | Ev::SingleShotSeal { .. } | Ev::KeygenRng { .. } | Ev::GenProbe { .. } | Ev::KemProbe { .. } | Ev::Seal { .. } | Ev::Deliver { .. } | Ev::Pump { .. });
+        if seamy && rng.chance(1, 3) {
+            let mut nested = vec![];
+            let k = rng.range(1, 3);
+            for _ in 0..k {
+                let others: Vec<usize> = (0..lists.len()).filter(|w| *w != cur && idx[*w] < lists[*w].len()).collect();
+                if others.is_empty() {
+                    break;
+                }
+                let o = *rng.pick(&others);
+                // same worker thread (re-entrant) now and then, otherwise another worker
+                let t2 = if rng.chance(1, 4) { cur_thread[cur] } else { rng.below(MAX_WORKERS as u64) as usize };
+                nested.push(Ev::On { w: o, t: t2, inner: Box::new(lists[o][idx[o]].clone()) });
+                idx[o] += 1;
+            }
+            if !nested.is_empty() {
+                out.push(Ev::OnNested { w: cur, t: cur_thread[cur], inner: Box::new(ev), at: if rng.chance(2, 3) { 0 } else { rng.below(3) as u32 }, nested });
+                continue;
+            }
+        }
         out.push(Ev::On { w: cur, t: cur_thread[cur], inner: Box::new(ev) });
     }
     out
